@@ -72,6 +72,23 @@ func (fg *FnGen) describeCall(c *ssa.CallCommon) callDesc {
 	if b, ok := c.Value.(*ssa.Builtin); ok {
 		d.full = "builtin." + b.Name()
 		d.short = d.full
+		if b.Name() == "append" && len(c.Args) > 0 {
+			// a monitor rule can name the element type: builtin.append:keys.frame ([]frame), builtin.append:string
+			if sl, ok := c.Args[0].Type().Underlying().(*types.Slice); ok {
+				et := sl.Elem()
+				if p, ok := et.Underlying().(*types.Pointer); ok {
+					et = p.Elem()
+				}
+				switch t := types.Unalias(et).(type) {
+				case *types.Named:
+					if t.Obj().Pkg() != nil {
+						d.short = d.full + ":" + t.Obj().Pkg().Name() + "." + t.Obj().Name()
+					}
+				case *types.Basic:
+					d.short = d.full + ":" + t.Name()
+				}
+			}
+		}
 		return d
 	}
 	d.full = "dynamic"
@@ -295,6 +312,18 @@ func (fg *FnGen) dispatchCall(fr *Frame, site ssa.Instruction, c *ssa.CallCommon
 		if res, st2, ok := fg.native(fr, d, c, args, st, reach, pos, name); ok {
 			return res, st2
 		}
+	}
+	if fg.g.isFunction(d) {
+		// effects list, "function <pattern>": the call leaves the heap unchanged and its results are a function of the
+		// callee value and the arguments (two calls with equal arguments give equal results) — an assumption, listed
+		fg.g.useTrusted("effects list (assumed to be a deterministic function of its arguments, heap unchanged): " + d.short)
+		uargs := append([]*Term{fg.val(fr, c.Value)}, args...)
+		var res []*Term
+		for i := 0; i < d.sig.Results().Len(); i++ {
+			srt := fg.g.ti.sortOf(d.sig.Results().At(i).Type())
+			res = append(res, App(fmt.Sprintf("uf:%s#%d", sanitize(d.short), i), srt, uargs...))
+		}
+		return res, st
 	}
 	if fg.g.isPure(d) {
 		fg.g.usePure(d.short)
